@@ -753,3 +753,95 @@ Proof.
   intros Hd Hd0 Hl Hal. apply never_rejected_for_depth with (d := d); rewrite ?run_qos; auto.
   now apply run_kl_bound.
 Qed.
+
+(* ------------------------------------------------------------------------- *)
+(* the correspondence oracle is a consequence of the theorems: C18_oracle_ok    *)
+(* accepts whatever the model produces                                         *)
+(* ------------------------------------------------------------------------- *)
+Definition ev_of (r : reader) (x : obs) : ev :=
+  match x with ObsAdd a => EvAdd a | ObsColl c => EvColl (probe r) c | ObsUnit => EvUnit end.
+Lemma model_evs_cons r o t :
+  model_evs r (o :: t) =
+  (fst (model_evs (fst (step r o)) t), ev_of r (snd (step r o)) :: snd (model_evs (fst (step r o)) t)).
+Proof.
+  cbn [model_evs]. destruct (step r o) as [r1 x]. cbn [fst snd].
+  destruct (model_evs r1 t). destruct x; reflexivity.
+Qed.
+Lemma model_evs_state ops : forall r, fst (model_evs r ops) = fst (run_obs r ops).
+Proof.
+  induction ops as [|o t IH]; intros r; [reflexivity|].
+  rewrite model_evs_cons, run_obs_cons. cbn [fst]. apply IH.
+Qed.
+Lemma run_trace_cons r o t :
+  run_trace r (o :: t) = (o, snd (step r o)) :: run_trace (fst (step r o)) t.
+Proof. unfold run_trace. rewrite run_obs_cons. reflexivity. Qed.
+
+Definition added_one (h : Z) (oe : op * ev) : list Z :=
+  match oe with
+  | (OpAdd _ h' _ _ d _, EvAdd Added) => if h' =? h then [d] else []
+  | _ => [] end.
+Lemma model_added_data h ops : forall r,
+  flat_map (added_one h) (zip ops (snd (model_evs r ops))) = accepted h (run_trace r ops).
+Proof.
+  induction ops as [|o t IH]; intros r; [reflexivity|].
+  rewrite model_evs_cons, run_trace_cons. cbn [snd zip flat_map]. unfold accepted in *. cbn [flat_map].
+  rewrite IH. f_equal. destruct o; cbn [step]; repeat break_match; reflexivity.
+Qed.
+Lemma model_no_rej3 ops : forall r,
+  Forall no_rej3 (run_trace r ops) ->
+  forallb (fun e => match e with EvAdd (Rejected _ 3) => false | _ => true end) (snd (model_evs r ops)) = true.
+Proof.
+  induction ops as [|o t IH]; intros r H; [reflexivity|].
+  rewrite model_evs_cons. rewrite run_trace_cons in H. inversion H as [|? ? H1 H2]; subst.
+  cbn [snd forallb]. rewrite (IH _ H2), andb_true_r.
+  unfold no_rej3 in H1. cbn [snd] in H1. destruct (snd (step r o)) as [a| |]; cbn [ev_of]; try reflexivity.
+  destruct a as [| |h0 c| |]; try reflexivity.
+  destruct (Z.eq_dec c 3) as [->|Hne]; [elim (H1 h0); reflexivity|].
+  destruct c as [|[[p|p|]|p|]|p]; try reflexivity. now elim Hne.
+Qed.
+Lemma list_eqb_Z_refl l : list_eqb Z.eqb l l = true.
+Proof. induction l as [|x l IH]; [reflexivity|]. cbn [list_eqb]. now rewrite Z.eqb_refl, IH. Qed.
+Lemma forallb_andb {A} (f g : A -> bool) l :
+  forallb (fun x => f x && g x) l = forallb f l && forallb g l.
+Proof.
+  induction l as [|x l IH]; [reflexivity|]. cbn [forallb]. rewrite IH.
+  destruct (f x), (g x), (forallb f l), (forallb g l); reflexivity.
+Qed.
+
+Theorem oracle_holds_on_model q ops :
+  match q_depth q with Some d => 1 <= d | None => True end ->
+  C18_oracle_ok (model_case q ops) = true.
+Proof.
+  intros Hd. unfold C18_oracle_ok, model_case, all_adds_alive, no_takes, added_data_of, trace, final_insts.
+  cbn [rc_q rc_ops rc_evs rc_fs]. rewrite model_evs_state.
+  change (fst (run_obs (init_reader q) ops)) with (run q ops).
+  change (forallb (fun o : op => match o with OpAdd _ _ k _ _ _ => kind_eqb k KAlive | _ => true end) ops)
+    with (forallb alive_add ops).
+  change (forallb (fun o : op => match o with OpTake _ _ _ | OpTakeNext _ _ _ => false | _ => true end) ops)
+    with (forallb not_take ops).
+  destruct (q_depth q) as [d|] eqn:Ed.
+  - apply andb_true_iff; split; [apply andb_true_iff; split|].
+    + apply forallb_forall. intros h _. apply Z.leb_le. apply keep_last_bound with (d := d); [exact Ed|lia].
+    + destruct (forallb alive_add ops && lim_ok (q_mspi q) d) eqn:E; [|reflexivity].
+      apply andb_true_iff in E as [E1 E2]. apply model_no_rej3.
+      apply never_rejected_for_depth_run with (d := d); auto. lia.
+    + destruct (forallb alive_add ops && forallb not_take ops && negb (q_bysrc q)) eqn:E; [|reflexivity].
+      apply andb_true_iff in E as [E1 E3]. apply negb_true_iff in E3.
+      apply forallb_forall. intros h _.
+      replace (flat_map (fun oe : op * ev =>
+                 match oe with
+                 | (OpAdd _ h' _ _ d0 _, EvAdd Added) => if h' =? h then [d0] else []
+                 | _ => [] end) (zip ops (snd (model_evs (init_reader q) ops))))
+        with (accepted h (run_trace (init_reader q) ops)) by (symmetry; apply (model_added_data h ops)).
+      rewrite <- (keep_last_newest q ops d h E3 Ed Hd); [apply list_eqb_Z_refl|].
+      now rewrite forallb_andb.
+  - destruct (forallb not_take ops) eqn:E; [|reflexivity].
+    apply forallb_forall. intros h _.
+    destruct (q_bysrc q) eqn:Eb; [apply orb_true_r|]. apply orb_true_iff. left.
+    replace (flat_map (fun oe : op * ev =>
+               match oe with
+               | (OpAdd _ h' _ _ d0 _, EvAdd Added) => if h' =? h then [d0] else []
+               | _ => [] end) (zip ops (snd (model_evs (init_reader q) ops))))
+      with (accepted h (run_trace (init_reader q) ops)) by (symmetry; apply (model_added_data h ops)).
+    destruct (keep_all_keeps q ops Ed E) as [_ K]. rewrite (K Eb h). apply list_eqb_Z_refl.
+Qed.
